@@ -401,6 +401,8 @@ def sampler_configs(tier, seed):
     late = 5000
     cfgs.append(dict(kind='seg', size=4, start=[0.0, 0.0], end=[1.0, 1.0], random=True, ndraws=late))
     cfgs.append(dict(kind='gen1d', size=3, lo=0.0, hi=1.0, random=True, ndraws=late))
+    cfgs.append(dict(kind='gent', size=2, lo=0.0, hi=3.0, random=True, ndraws=late))
+    cfgs.append(dict(kind='rect', size=[2, 3], xlo=0.0, xhi=1.0, ylo=-1.0, yhi=1.0, random=True, ndraws=late))
     if not quick:
         cfgs.append(dict(kind='seg', size=64, start=[-2.0, 3.0], end=[5.0, -1.0], random=True, ndraws=late))
         cfgs.append(dict(kind='seg', size=1, start=[0.0, 0.0], end=[1.0, 0.0], random=True, ndraws=late))
@@ -422,12 +424,13 @@ def _tiny(n_in):
     return FCNN(n_in, 1, hidden_units=(3,))
 
 
-def make_training(routine, ns, nt, spy_log=None):
+def make_training(routine, ns, nt, spy_log=None, real_gens=False, one_point_boundary=False):
     """real approximator + optimizer + spy generators for one of the three legacy training routines.
-    training points are identified by exactly representable coordinates: x = i, y = 2 i, t = j"""
+    training points are identified by exactly representable coordinates: x = i, y = 2 i, t = j.
+    real_gens (only used for the 1-point training set): the repo's own samplers instead of the spy generators"""
     import torch
     from neurodiffeq import temporal as T
-    from neurodiffeq import diff
+    from neurodiffeq.neurodiffeq import unsafe_diff as diff      # the legacy API works on 1-D tensors (as in /repo/tests/test_temporal.py)
 
     def const_gen(*cols):
         while True:
@@ -437,7 +440,10 @@ def make_training(routine, ns, nt, spy_log=None):
     ys = [2.0 * i for i in range(ns)]
     ts = [float(j) for j in range(nt)]
     if routine == '1d_temporal':
-        bc = T.BoundaryCondition(form=lambda u, x, t: u, points_generator=T.generator_1dspatial(1, 0., 0., random=False))
+        # the boundary of a 1-D domain is one point; with a single time sample the 1x1 boundary set hits the same squeeze-to-0-d
+        # defect as the 1-point training set (known finding), so nt == 1 uses both end points unless `one_point_boundary` is forced
+        nb = 1 if (nt >= 2 or one_point_boundary) else 2
+        bc = T.BoundaryCondition(form=lambda u, x, t: u, points_generator=T.generator_1dspatial(nb, 0., float(nb - 1), random=False))
         ap = T.SingleNetworkApproximator1DSpatialTemporal(_tiny(2), lambda u, x, t: diff(u, t) - 1e-3 * diff(u, x), T.FirstOrderInitialCondition(lambda x: torch.sin(x)), [bc])
         gens = (const_gen(xs), const_gen(ts))
         train = T._train_1dspatial_temporal
@@ -454,6 +460,15 @@ def make_training(routine, ns, nt, spy_log=None):
         gens = (const_gen(xs, ys), const_gen(ts))
         train = T._train_2dspatial_temporal
         ident = lambda xx, yy, tt, x, y, t: ((xx * nt + tt), yy - 2 * xx)
+    if real_gens:
+        assert ns == 1 and nt == 1
+        if routine == '1d_temporal':
+            gens = (T.generator_1dspatial(1, 0., 1.), T.generator_temporal(1, 0., 1.))
+        elif routine == '2d':
+            gens = (T.generator_2dspatial_rectangle((1, 1), 0., 1., 0., 1.), None)
+        else:
+            gens = (T.generator_2dspatial_segment(1, (0., 0.), (1., 1.)), T.generator_temporal(1, 0., 1.))
+        ident = lambda xx, *rest: (torch.zeros_like(xx.reshape(-1)), None)    # the only training point has id 0
     if spy_log is not None:
         orig = ap.calculate_loss
 
@@ -477,7 +492,8 @@ def real_batches(s):
     import torch
     torch.manual_seed(s['torch_seed'])
     calls, perms = [], []
-    ap, opt, gens, train = make_training(s['routine'], s['ns'], s['nt'], calls)
+    ap, opt, gens, train = make_training(s['routine'], s['ns'], s['nt'], calls, real_gens=s.get('real_gens', False),
+                                          one_point_boundary=s.get('one_point_boundary', False))
     try:
         with record_torch('randperm', perms):
             train(gens[0], gens[1], ap, opt, {}, s['shuffle'], s['bs'])
@@ -545,7 +561,7 @@ def real_history(s):
     import torch
     from neurodiffeq import temporal as T
     torch.manual_seed(s['torch_seed'])
-    ap, opt, _, _ = make_training(s['solver'], 2, 2)
+    ap, opt, _, _ = make_training(s['solver'], 2, s['nt'])
     rnd = s['random']
     if s['solver'] == '1d_temporal':
         mk = lambda f: {m: (lambda u, x, t, k=k: (u ** 2).mean() + k) for k, m in enumerate(s['metrics'])}
@@ -592,7 +608,9 @@ def history_scripts(tier, seed):
 
 
 def size1_cases():
-    return [dict(routine=r, ns=1, nt=1, bs=4, shuffle=sh, torch_seed=5) for r, sh in (('1d_temporal', True), ('2d', False), ('2d_temporal', True))]
+    """the known finding: 1-point training sets (three routines) + the same collapse at the boundary term (1 boundary point x 1 time sample)"""
+    return ([dict(routine=r, ns=1, nt=1, bs=4, shuffle=sh, torch_seed=5, real_gens=True) for r, sh in (('1d_temporal', True), ('2d', False), ('2d_temporal', True))]
+            + [dict(routine='1d_temporal', ns=3, nt=1, bs=2, shuffle=False, torch_seed=5, one_point_boundary=True)])
 
 
 # =====================================================================================================================
@@ -708,9 +726,10 @@ def check(tier, seed):
                 failing.append(dict(kind='sampler', cfg=s, violated=bad))
         elif kind == 'batches':
             n = s['ns'] * s['nt']
-            if n == 1:
-                exact_err = r.get('error') == 'TypeError: len() of a 0-d tensor'
-                if exact_err and KNOWN_KEY_SIZE1 in known_entries:
+            if n == 1 or s.get('one_point_boundary'):
+                want_err = ('TypeError: len() of a 0-d tensor' if n == 1 else
+                            'IndexError: Dimension out of range (expected to be in range of [-1, 0], but got 1)')
+                if r.get('error') == want_err and KNOWN_KEY_SIZE1 in known_entries:
                     hist['size1_known'] += 1
                     continue
                 bad = batch_property(s, r)
@@ -750,7 +769,8 @@ def check(tier, seed):
                     failing.append(dict(kind='history', script=s, violated=bad))
     if hist['size1_known']:
         rep.known.append(f'{KNOWN_KEY_SIZE1}: _train_1dspatial_temporal/_train_2dspatial/_train_2dspatial_temporal with a 1-point training set raise '
-                         f'TypeError: len() of a 0-d tensor (reproduced {hist["size1_known"]}/3)')
+                         f'TypeError: len() of a 0-d tensor; same torch.squeeze collapse in the boundary term for 1 boundary point x 1 time sample '
+                         f'(IndexError in unsqueeze) (reproduced {hist["size1_known"]}/4)')
     if mism:
         broken.append(dict(kind='correspondence', mismatches=mism[:4], count=len(mism)))
     hist['sizes'] = sorted(hist['sizes'])
